@@ -172,6 +172,28 @@ def rule_T5(ctx):
     for m in _pair_matches(f):
         if len(m["arms"]) < 5:
             check_match(F, f, m, r, "small@" + loc(m).split(":")[-1])
+    # an arm that queues component pairs on the work list queues them unconditionally: a shortcut that answers `false` from the
+    # components' *types* by-passes the dispatch, which knows cross-type equalities (Char vs one-character CharList, List vs Concatenation)
+    n_q = 0
+    for arm in outer["arms"]:
+        pushes = [n for n in walk(arm["body"]) if n.get("k") == "MethodCall" and n.get("m") == "push_register"]
+        if not pushes:
+            continue
+        n_q += 1
+        cond_ids = set()
+        for n in walk(arm["body"]):
+            if n.get("k") == "If":
+                for br in (n.get("then"), n.get("else")):
+                    for x in walk(br or {}):
+                        cond_ids.add(id(x))
+            if n.get("k") == "Match" and n.get("src") == "Normal":
+                for a2 in n["arms"]:
+                    for x in walk(a2["body"]):
+                        cond_ids.add(id(x))
+        if any(id(p_) in cond_ids for p_ in pushes):
+            names = "/".join(sorted(set(last(a[1]) for alt in hirq.norm_pat(arm["pat"]) if alt[0] == "T" for a in alt[1] if a[0] == "V")))
+            r.finding(f["path"], "conditional-queue:" + names, loc(arm), "the %s arm queues its component pairs only under a condition: a shortcut taken from the components' types or values by-passes the type-pair dispatch, which alone knows the cross-type equalities" % names)
+    r.analysed["arms_queueing_component_pairs"] = n_q
     r.floor("explicit type pairs in the equality dispatch", total, 40)
     # equal / not_equal
     eq = [g for g in F.find_fns(crate="garnish_lang_runtime", name="equal") if g.get("vis") == "Public"]
